@@ -7,18 +7,69 @@ from collections import deque
 from .build import AnalysisBroken
 
 
+DEFAULT_PROG = [None]     # set by the check driver: the Program of the current run
+
+
 class Evaluator:
     """Three-valued constant folding of branch conditions under bindings.
 
     bindings: {callee qualified name: value}  value = bool / ('enum', name) / int
     locals are followed through their single definition."""
 
-    def __init__(self, fn, bindings=None, var_values=None, custom=None, enum_values=None):
+    def __init__(self, fn, bindings=None, var_values=None, custom=None, enum_values=None, prog=None, _stack=()):
         self.fn = fn
         self.b = bindings or {}
         self.vars = var_values or {}
         self.custom = custom
         self.enum_values = enum_values or {}
+        # whole-program view: lets the evaluator look into small boolean helper predicates of the repository (a condition that was
+        # extracted into "static bool isAllowedBeforeTls(const QDomElement &)" is evaluated like the inline condition)
+        self.prog = prog if prog is not None else DEFAULT_PROG[0]
+        self._stack = _stack
+
+    def _ev_helper(self, n, state, depth):
+        """value of a call to a small bool-returning function defined in the analysed sources, or None"""
+        fn = self.fn
+        if self.prog is None or len(self._stack) >= 3:
+            return None
+        if (n.get('t') or '') != 'bool':
+            return None
+        callees = self.prog.callee_fns(fn, n)
+        if len(callees) != 1:
+            return None
+        g = callees[0]
+        if g.entry is None or g.id == fn.id or g.id in self._stack or len(g.nodes) > 400 or g.raw.get('dependent'):
+            return None
+        args = list(n.get('args', []))
+        argvals = {}
+        for k, a in enumerate(args):
+            if k < len(g.params) and fn.nodes[a]['k'] != 'defarg':
+                argvals[k] = self.ev(a, state, depth + 1)
+        outer_custom = self.custom
+
+        def custom(f, nid, st):
+            m = f.nodes[nid]
+            if f.id == g.id and m['k'] == 'var' and m.get('vk') == 'param' and m.get('pidx') in argvals and argvals[m['pidx']] is not None:
+                return (argvals[m['pidx']],)
+            if outer_custom:
+                return outer_custom(f, nid, st)
+            return None
+        sub = Evaluator(g, self.b, custom=custom, enum_values=self.enum_values, prog=self.prog, _stack=self._stack + (fn.id,))
+        vals = set()
+
+        def tr(f, nid, st):
+            m = f.nodes[nid]
+            if m['k'] == 'ret' and 'e' in m:
+                vals.add(sub.ev(m['e'], None))
+            return None
+        try:
+            explore(g, (), tr, lambda f, c, st: sub.ev(c, None), max_states=5000)
+        except AnalysisBroken:
+            return None
+        if len(vals) == 1:
+            v = vals.pop()
+            return v if isinstance(v, bool) else None
+        return None
 
     def _num(self, v):
         if isinstance(v, bool):
@@ -93,6 +144,8 @@ class Evaluator:
             cn = fn.cname(n)
             if cn in self.b:
                 return self.b[cn]
+            if k == 'call' and not n.get('op'):
+                return self._ev_helper(n, state, depth)
             return None
         if k == 'var':
             if n['decl'] in self.vars:
